@@ -33,7 +33,9 @@ type tmpl struct {
 	text   string // template text with unquote(p)
 }
 
-var argPool = []string{"1", "x", "2-1", "a || b", "println(\"side\")", "y = 5", "f(3)", "[1,2]", "n => n*2", "-4", "\"s\"", "x++", "1+2*3", "a == b", "{1:2}", "if c {1} else {2}", "z[0]", "q.r"}
+var argPool = []string{"1", "x", "2-1", "a || b", "println(\"side\")", "y = 5", "f(3)", "[1,2]", "n => n*2", "-4", "\"s\"", "x++", "1+2*3", "a == b", "{1:2}", "if c {1} else {2}", "z[0]", "q.r",
+	// nodes without children (a tree rewrite may hand them out unshared or shared): empty composite literals, empty-bodied lambdas, bare calls
+	"[]", "{}", "() => {}", "f()", "[[]]", "{1:{}}", "\"\"", "nil", "true"}
 
 func genTemplate(c *Ctx) tmpl { return genTemplateN(c, c.R.Intn(5)) }
 
@@ -293,6 +295,11 @@ func evalSession(inputs []string, entry string) (res string, errs []string) {
 	return out.String(), errs
 }
 
+// macroKey: the replayable form of a session (the inputs with macros and their hand-substituted counterparts)
+func macroKey(s sess) string {
+	return "MACRO " + Hx([]byte(strings.Join(s.withMacros, "\x00"))) + " " + Hx([]byte(strings.Join(s.handSubst, "\x00")))
+}
+
 func one(c *Ctx, s sess) {
 	c.Eval()
 	st := eval.NewState()
@@ -314,7 +321,7 @@ func one(c *Ctx, s sess) {
 		func() {
 			defer func() {
 				if r := recover(); r != nil {
-					c.Fail("expansion-panic", "MACRO "+Hx([]byte(strings.Join(s.withMacros, "\x00"))), fmt.Sprint(r))
+					c.Fail("expansion-panic", macroKey(s), fmt.Sprint(r))
 					okAll = false
 				}
 			}()
@@ -328,13 +335,16 @@ func one(c *Ctx, s sess) {
 		if !okAll {
 			return
 		}
-		ed := strings.ReplaceAll(DumpList(exp.(*ast.Statements).Statements, true), " ", "")
+		// an absent list (nil) and an empty one are the same tree: the rewrite hands out `() => {}` with an empty parameter list
+		// where the parser leaves it nil (no node position can hold both a nil node and a list, so one spelling for both is exact)
+		norm := func(d string) string { return strings.ReplaceAll(strings.ReplaceAll(d, " ", ""), "nil", "[]") }
+		ed := norm(DumpList(exp.(*ast.Statements).Statements, true))
 		obs = append(obs, Hx([]byte(ed)))
-		hd := strings.ReplaceAll(DumpList(hand.Statements, true), " ", "")
+		hd := norm(DumpList(hand.Statements, true))
 		if ed != hd {
 			sig := "expansion-differs-from-hand-substitution"
 			_ = calleeSite
-			c.Fail(sig, "MACRO "+Hx([]byte(strings.Join(s.withMacros, "\x00"))), fmt.Sprintf("input=%q hand=%q", in, s.handSubst[i]))
+			c.Fail(sig, macroKey(s), fmt.Sprintf("input=%q hand=%q expanded-tree=%s hand-tree=%s", in, s.handSubst[i], ed, hd))
 			okAll = false
 		}
 		// the expanded program prints and re-parses like the hand-substituted one
@@ -342,7 +352,7 @@ func one(c *Ctx, s sess) {
 			t1, p1 := Format(exp.(*ast.Statements), compact)
 			t2, p2 := Format(hand, compact)
 			if p1 || p2 || (ed == hd && !bytes.Equal(t1, t2)) {
-				c.Fail("expanded-prints-differently", "MACRO "+Hx([]byte(in)), fmt.Sprintf("%q vs %q", t1, t2))
+				c.Fail("expanded-prints-differently", macroKey(s), fmt.Sprintf("%q vs %q", t1, t2))
 			}
 		}
 	}
@@ -352,7 +362,7 @@ func one(c *Ctx, s sess) {
 		o1, e1 := evalSession(s.withMacros, entry)
 		o2, e2 := evalSession(s.handSubst, entry)
 		if okAll && (o1 != o2 || strings.Join(e1, ",") != strings.Join(e2, ",")) {
-			c.Fail("expanded-evaluates-differently:"+entry, "MACRO "+Hx([]byte(strings.Join(s.withMacros, "\x00"))), fmt.Sprintf("out %q vs %q errs %v vs %v", o1, o2, e1, e2))
+			c.Fail("expanded-evaluates-differently:"+entry, macroKey(s), fmt.Sprintf("out %q vs %q errs %v vs %v", o1, o2, e1, e2))
 		}
 		c.Count("entry=" + entry)
 	}
@@ -403,9 +413,8 @@ func run(c *Ctx) {
 		if len(f) == 3 && f[0] == "MACROEV" {
 			oneEvalOnly(c, sess{withMacros: strings.Split(string(Unhx(f[1])), "\x00"), handSubst: strings.Split(string(Unhx(f[2])), "\x00")})
 		}
-		if len(f) == 2 && f[0] == "MACRO" {
-			ins := strings.Split(string(Unhx(f[1])), "\x00")
-			one(c, sess{withMacros: ins, handSubst: ins})
+		if len(f) == 3 && f[0] == "MACRO" {
+			one(c, sess{withMacros: strings.Split(string(Unhx(f[1])), "\x00"), handSubst: strings.Split(string(Unhx(f[2])), "\x00")})
 		}
 		return
 	}
